@@ -1,10 +1,10 @@
 """R-LINK, R-KEEP, R-ROOT, R-FRAME, R-STALE, R-PUNCTSEL: rules about the tree data structure."""
 import ast
 
-from ..core import (AnalysisError, path, unparse, root_name, norm_test, facts_at, no_kill_between,
+from ..core import (AnalysisError, Unrecognised, path, unparse, root_name, norm_test, facts_at, no_kill_between,
                     walk_own, names_in)
 from ..events import (link_events, data_events, fresh_paths, resolve, single_def, name_defs,
-                      is_tree_ctor)
+                      is_tree_ctor, mover_helper)
 from ..report import Ob
 
 # ------------------------------------------------------------------------------------ helpers
@@ -133,6 +133,15 @@ def r_link(prog, tier):
                     found = a
                     why = 'paired with `%s`, conditional only on `%s` not being None' % (unparse(a.ast), qp)
                     break
+            if found is None:
+                # the node is an element of a list that was assigned wholesale as the parent's children
+                d = single_def(f, p.x.id, p.node) if isinstance(p.x, ast.Name) else None
+                if d and d[0] != 'param' and isinstance(d[1], tuple) and d[1][0] == 'iter':
+                    src = names_in(d[1][1])
+                    for c in evs:
+                        if c.kind == 'CLR' and _same_value(f, c.q, c.node, p.q, p.node) and (names_in(c.value) & src):
+                            found = c
+                            why = 'element of the list assigned as `%s.children` (`%s`)' % (unparse(p.q), unparse(c.ast))
             obs.append(Ob('R-LINK/L2', f.fq,
                           'parent-pointer update `%s` is paired with an attach to that parent'
                           % unparse(p.ast), found is not None,
@@ -273,6 +282,16 @@ def _word_in(expr, varname, sets):
     return None
 
 
+def _word_in_pol(expr, pol, varname, sets):
+    nt = norm_test(expr, pol)
+    if nt[0] != 'in' or nt[3] is not True or nt[1] != "%s.data['word']" % varname:
+        return None
+    for s in sets:
+        if nt[2] in ('trees.' + s, s):
+            return s
+    return None
+
+
 def punct_filtered(func, x, at, sets):
     """Is the node denoted by Name x at CFG node `at` known to be a token whose word is in one of
     the inventories `sets`?  (a) a dominating guard, (b) loop variable over a list comprehension
@@ -281,10 +300,9 @@ def punct_filtered(func, x, at, sets):
         return None
     cfg = func.cfg
     for a in cfg.assumes_at(at):
-        if a.pol:
-            s = _word_in(a.ast, x.id, sets)
-            if s and no_kill_between(cfg, a.id, at, [x.id]):
-                return 'guard `%s`' % unparse(a.ast)
+        s = _word_in_pol(a.ast, a.pol, x.id, sets)
+        if s and no_kill_between(cfg, a.id, at, [x.id]):
+            return 'guard `%s%s`' % ('' if a.pol else 'not ', unparse(a.ast))
     d = single_def(func, x.id, at)
     if d and d[0] != 'param' and isinstance(d[1], tuple) and d[1][0] == 'iter':
         it, target = d[1][1], d[1][2]
@@ -293,6 +311,28 @@ def punct_filtered(func, x, at, sets):
             if not ldefs:
                 return None
             reasons = []
+            if all(isinstance(v, ast.List) and not v.elts for (_, v) in ldefs if isinstance(v, ast.AST)) \
+                    and isinstance(target, ast.Name):
+                # list filled by append: every appended value must be guarded by the membership test
+                apps = []
+                for n in cfg.eval_nodes():
+                    if n.kind == 'stmt' and isinstance(n.ast, ast.Expr) and isinstance(n.ast.value, ast.Call) \
+                            and unparse(n.ast.value.func) == '%s.append' % it.id and len(n.ast.value.args) == 1:
+                        apps.append(n)
+                if not apps:
+                    return None
+                for n in apps:
+                    arg = n.ast.value.args[0]
+                    if not isinstance(arg, ast.Name):
+                        return None
+                    hit = None
+                    for a in cfg.assumes_at(n.id):
+                        if _word_in_pol(a.ast, a.pol, arg.id, sets):
+                            hit = a
+                    if hit is None:
+                        return None
+                    reasons.append(unparse(hit.ast))
+                return 'loop over a list that only receives tokens under `%s`' % '` / `'.join(reasons)
             for (_, v) in ldefs:
                 if not isinstance(v, ast.ListComp) or len(v.generators) != 1:
                     return None
@@ -365,6 +405,8 @@ def r_keep(prog, tier):
     for f, evs in movers(prog):
         if f.module.name not in KEEP_SCOPE_MODULES:
             continue
+        if mover_helper(prog, f):
+            continue        # a re-link helper: its detach is judged at every call site (events are inlined there)
         cfg = f.cfg
         dets = [e for e in evs if e.kind == 'DET']
         atts = [e for e in evs if e.kind == 'ATT']
@@ -421,8 +463,24 @@ def r_keep(prog, tier):
                 if prem:
                     ok = True
                     detail = '(d) upward pruning: ' + prem
+            verdict = True if ok else False
+            if not ok:
+                # is there *any* condition on the way to the detach that looks at the parent's children?
+                # if so the guard exists in a shape this rule does not recognise: no verdict
+                mention = []
+                for a in cfg.assumes_at(d.node):
+                    txt = unparse(a.ast)
+                    if 'children' in txt and set(a.loops) >= set(cfg.nodes[d.node].loops):
+                        mention.append(txt)
+                if mention:
+                    verdict = None
+                    detail = 'a condition on the children of the parent guards the move (`%s`) but not in a form ' \
+                             'this rule can evaluate' % mention[-1][:60]
+                elif f.fq in ('trees.delete_terminal', 'transform.root_attach'):
+                    verdict = None
+                    detail = 'premise of the table entry not recognised in this shape'
             obs.append(Ob('R-KEEP', f.fq, 'detach `%s` never leaves a childless constituent'
-                          % unparse(d.ast), ok, detail, construct='keep:' + unparse(d.ast),
+                          % unparse(d.ast), verdict, detail, construct='keep:' + unparse(d.ast),
                           line=cfg.nodes[d.node].lineno))
     return obs, {}
 
@@ -589,7 +647,7 @@ class _RootFlow(object):
         while work:
             it += 1
             if it > 20000:
-                raise AnalysisError('root dataflow does not converge in %s' % self.f.fq)
+                raise Unrecognised('root dataflow does not converge in %s' % self.f.fq)
             n = work.pop()
             st = dict(state_in.get(n, {}))
             node = cfg.nodes[n]
@@ -608,7 +666,7 @@ class _RootFlow(object):
             elif node.kind == 'iter':
                 for sub in ast.walk(node.ast.target):
                     if isinstance(sub, ast.Name):
-                        st[sub.id] = 'NODE' if st.get(sub.id) in ('ROOT', 'NODE', 'FRESH') else 'OTHER'
+                        st[sub.id] = 'NODE'
             elif node.kind == 'assume':
                 fa = norm_test(node.ast, node.pol)
                 nm = None
@@ -619,7 +677,25 @@ class _RootFlow(object):
                 if nm and st.get(nm) in ('ROOT', 'NODE', 'FRESH'):
                     st[nm] = 'ROOT'
             out[n] = st
+            exit_state = None
+            if node.kind == 'iter' and isinstance(node.ast.iter, ast.Call) \
+                    and self.prog.callee(node.ast.iter, self.f) == ('trees', 'dominance') \
+                    and isinstance(node.ast.target, ast.Name):
+                # after `for a in trees.dominance(x): r = a` the name r (and a) denotes the root
+                exit_state = dict(st)
+                lv = node.ast.target.id
+                exit_state[lv] = 'ROOT'
+                for b_ in node.ast.body:
+                    if isinstance(b_, ast.Assign) and isinstance(b_.value, ast.Name) and b_.value.id == lv:
+                        for t in b_.targets:
+                            if isinstance(t, ast.Name):
+                                exit_state[t.id] = 'ROOT'
             for s in cfg.succ[n]:
+                if exit_state is not None and n not in cfg.nodes[s].loops:
+                    st_s = exit_state
+                else:
+                    st_s = st
+                st, st_keep = st_s, st
                 old = state_in.get(s)
                 if old is None:
                     state_in[s] = dict(st)
@@ -637,6 +713,7 @@ class _RootFlow(object):
                     if changed:
                         state_in[s] = new
                         work.append(s)
+                st = st_keep
         return state_in, out
 
     def returns(self):
@@ -895,6 +972,8 @@ def r_frame(prog, tier):
     for nm, sets in sorted(mv.items()):
         f = prog.func('transform', nm)
         for e in link_events(prog, f):
+            if e.kind == 'ATT' and any(o.kind == 'DET' and o.node == e.node for o in link_events(prog, f)):
+                continue        # inlined helper: the detach of the same call already stands for the move
             if e.kind not in ('DET', 'ATT'):
                 continue
             why = punct_filtered(f, e.x, e.node, sets)
@@ -927,10 +1006,10 @@ def _raising_selection(f, e):
     """X in `X.parent = None` iterates a list L; every L.append(Y) is guarded by Y != root,
     Y.data['split'] true and Y.data['head_block'] false."""
     if not isinstance(e.x, ast.Name):
-        return False, 'discarded node is not a simple name'
+        return None, 'discarded node is not a simple name'
     d = single_def(f, e.x.id, e.node)
     if not (d and d[0] != 'param' and isinstance(d[1], tuple) and d[1][0] == 'iter' and isinstance(d[1][1], ast.Name)):
-        return False, 'discarded node is not a loop variable over a removal list'
+        return None, 'discarded node is not a loop variable over a removal list'
     lst = d[1][1].id
     cfg = f.cfg
     apps = []
@@ -941,7 +1020,22 @@ def _raising_selection(f, e):
                         and path(sub.func.value) == lst and len(sub.args) == 1:
                     apps.append((n.id, sub.args[0]))
     if not apps:
-        return False, 'removal list `%s` is not filled by append' % lst
+        # a comprehension with the conditions
+        for (nid, v) in name_defs(f, lst):
+            if isinstance(v, ast.ListComp) and len(v.generators) == 1 and isinstance(v.elt, ast.Name):
+                from ..core import split_assumes
+                y = v.elt.id
+                conds = []
+                for c in v.generators[0].ifs:
+                    conds.extend(norm_test(ce, pol) for (ce, pol) in split_assumes(c, True))
+                root = f.params[0]
+                need = [('truthy', "%s.data['split']" % y, True), ('truthy', "%s.data['head_block']" % y, False)]
+                notroot = ('cmp', y, '!=', root) in conds or ('cmp', root, '!=', y) in conds
+                miss = [str(x) for x in need if x not in conds]
+                if miss or not notroot:
+                    return False, 'selection of `%s` lacks condition(s): %s%s' % (y, ', '.join(miss), '' if notroot else ' node != root')
+                return True, 'selected by a comprehension under `split`, `not head_block`, `!= %s`' % root
+        return None, 'removal list `%s` is built in a way this rule does not recognise' % lst
     for (nid, arg) in apps:
         y = path(arg)
         facts = [fa for (fa, _) in facts_at(cfg, nid)]
@@ -963,7 +1057,7 @@ def r_stale(prog, tier):
     something)."""
     obs = []
     for f, evs in movers(prog):
-        if f.module.name != 'transform':
+        if f.module.name != 'transform' or mover_helper(prog, f):
             continue
         cfg = f.cfg
         pars_in_loops = [e for e in evs if e.kind == 'PAR' and cfg.nodes[e.node].loops]
@@ -1039,7 +1133,7 @@ def r_punctsel(prog, tier):
         evs = link_events(prog, f)
         dets = [e for e in evs if e.kind == 'DET']
         if not dets:
-            raise AnalysisError('%s has no detach event' % f.fq)
+            raise Unrecognised('%s has no detach event' % f.fq)
         for d in dets:
             conds = []
             for a in cfg.assumes_at(d.node):
@@ -1083,7 +1177,12 @@ def _allowed_punct_cond(nm, f, ce, pol, d):
             return True, 'the parent does not consist of punctuation only'
         if fa[0] == 'cmp' and fa[2] == '!=' and (fa[1].endswith('.parent') or fa[3].endswith('.parent')):
             return True, 'the target differs from the present parent'
-    return False, 'condition `%s%s` restricts the moved tokens beyond the documented rule' \
+    # a comparison of the target with the present parent (possibly through aliases)
+    if fa[0] == 'cmp' and fa[2] == '!=':
+        cands = set(x for x in (path(d.p), resolve(f, d.p, d.node)) if x)
+        if fa[1] in cands or fa[3] in cands:
+            return True, 'the target differs from the present parent'
+    return None, 'condition `%s%s` is not one of the documented ones in a form this rule recognises' \
         % ('' if pol else 'not ', txt)
 
 
